@@ -186,6 +186,8 @@ let run (op : string) (args : S.t list) : S.t =
       sx_n (expand_ket (n_of_sexp base) (n_of_sexp red) (list_of_sexp n_of_sexp qs))
   | "normalize_angle", [x] -> sx_float (normalize_angle d (float_of_sexp x))
   | "mk_bsr", [q; ax; a; p] -> sx_gate (mk_bsr d (z_of_sexp q) (axis_of_sexp ax) (float_of_sexp a) (float_of_sexp p))
+  | "mk_bsr_checked", [q; ax; a; p] ->
+      sx_result sx_gate (mk_bsr_checked d (z_of_sexp q) (axis_of_sexp ax) (float_of_sexp a) (float_of_sexp p))
   | "mk_ctrl", [c; g] -> sx_result sx_gate (mk_ctrl (z_of_sexp c) (gate_of_sexp g))
   | "mk_mat", [m; ops] ->
       sx_result sx_gate (mk_mat (list_of_sexp (list_of_sexp cplx_of_sexp) m) (list_of_sexp z_of_sexp ops))
